@@ -41,6 +41,7 @@ func runC14(p *core.Program, r *core.Report) {
 	r.Rule("C14.max", "registers only take the larger value: store iff cur < new; merge selects the larger on both outcomes", 2)
 	r.Rule("C14.geometry", "register width/mask/addressing agree across Set, Get, UpdateIfGreater and Merge", 5)
 	r.Rule("C14.index", "index = top log2m bits of the hash; rank = clz((hash << log2m) | guard bit) + 1", 2)
+	r.Rule("C14.offer-update", "every offered hash reaches the register update: no path of offerHashed/offerHashedLong returns without UpdateIfGreater(j, r) unless it compared r with the register read at j (whether a register changes is decided per register, by value)", 2)
 	r.Rule("C14.serial", "GetBytes ~ BuildHyperLogLog agree on the layout", 1)
 	r.Rule("C14.offer-pure", "what Offer does with an item depends on the item and the registers only: no offering method decides on a field of the counter that an offering method assigns, unless the test is guarded by a validity flag (a remembered 'last item' whose zero value passes for item 0 makes the result depend on the history of offers)", 1)
 	c14OfferPure(p, r)
@@ -87,6 +88,7 @@ func runC14(p *core.Program, r *core.Report) {
 	c14Max(p, r)
 	c14Geometry(p, r)
 	c14Index(p, r)
+	c14OfferUpdate(p, r)
 	x := wire.NewExtractor(p)
 	var pairs []codecPair
 	if w, rd := p.Method("util/hll", "HyperLogLog", "GetBytes"), p.Func("util/hll", "BuildHyperLogLog"); w != nil && rd != nil {
@@ -1557,4 +1559,56 @@ func rangeSourceOf(info *types.Info, body *ast.BlockStmt, id *ast.Ident) ast.Exp
 		return true
 	})
 	return out
+}
+
+// c14OfferUpdate: path rule over the two offer routines (helpers followed).
+func c14OfferUpdate(p *core.Program, r *core.Report) {
+	for _, name := range []string{"offerHashed", "offerHashedLong"} {
+		fi := p.Method("util/hll", "HyperLogLog", name)
+		c := "util/hll.(*HyperLogLog)." + name
+		if fi == nil || fi.Decl.Body == nil {
+			r.Undec("C14.offer-update", c, "-", "not found")
+			continue
+		}
+		info := fi.Pkg.TypesInfo
+		in := newInliner(p, fi, nil)
+		norm := func(e ast.Expr) string { return stripSpaces(types.ExprString(e)) }
+		ps, over := paths.Enumerate(fi.Decl.Body, paths.Config{Info: info, Inline: in.Body, Expand: in.Expand,
+			Cond: func(cnd ast.Expr, v bool) *paths.Event {
+				return &paths.Event{Kind: "COND", Arg: fmt.Sprintf("%s=%v", norm(cnd), v)}
+			},
+			Classify: func(n ast.Node) []paths.Event {
+				var out []paths.Event
+				ast.Inspect(n, func(m ast.Node) bool {
+					if call, ok := m.(*ast.CallExpr); ok {
+						if sel, ok := call.Fun.(*ast.SelectorExpr); ok && sel.Sel.Name == "UpdateIfGreater" {
+							out = append(out, paths.Event{Kind: "UPDATE", Pos: call.Pos()})
+						}
+					}
+					return true
+				})
+				return out
+			}})
+		pos := p.Pos(fi.Decl.Pos())
+		if over {
+			r.Undec("C14.offer-update", c, pos, "too many paths")
+			continue
+		}
+		var probs []string
+		for _, pa := range ps {
+			if pa.Has("UPDATE") || pa.Has("CUT") {
+				continue
+			}
+			byValue := false
+			for _, e := range pa {
+				if e.Kind == "COND" && strings.Contains(e.Arg, ".Get(") {
+					byValue = true
+				}
+			}
+			if !byValue {
+				probs = append(probs, "a path returns without UpdateIfGreater and without having compared the rank with the register's value: "+pa.String())
+			}
+		}
+		fileProbs(r, "C14.offer-update", c, pos, uniq(probs), fmt.Sprintf("%d path(s), each through UpdateIfGreater", len(ps)))
+	}
 }
